@@ -109,6 +109,58 @@ def gen_script(rnd, sid, family):
     return sc
 
 
+def splitcancel_script(rnd, sid):
+    """an awaited reply arrives in two pieces and its caller gives up in between (the read loop has already taken the
+    waiter and is reading the payload); afterwards keep-alives must still be read and acknowledged. Go only."""
+    version = rnd.choice([1, 2])
+    b = cc.SB(sid, version=version)
+    b.connect(cur=rnd.choice([1, 2]), mx=2)
+    tag = rnd.randrange(1, 1 << 20) * 64
+    ncall = rnd.randrange(1, 4)
+    for c in range(1, ncall + 1):
+        b.send(c, rnd.choice(REQ_TYPES), 1 + rnd.randrange(0, 50), tag + c)
+    n = rnd.choice([1, 2, 40, 700])
+    cut = 10 + rnd.randrange(0, n)
+    rep = dict(op="reply", to=b.req_index[1], typ=1023, pl=dict(k="tag", len=n, tag=tag + 20))
+    b.steps.append(dict(rep, cut=cut))
+    b.cancel(1)
+    b.steps.append(dict(rep, skip=cut))
+    for k in range(rnd.randrange(1, 4)):
+        b.keepalive(rnd.choice([0, 7 + k, 4294967295]))
+        b.expect()
+    for c in range(2, ncall + 1):
+        b.reply_to(c, 1023, rnd.choice([0, 9]), tag + 30 + c)
+        b.wait(c)
+    b.keepalive(12345)
+    b.expect()
+    b.op("drain")
+    b.op("wait_connect")
+    sc = b.script()
+    sc["family"] = "splitcancel"
+    return sc
+
+
+def timed_script(rnd, sid):
+    """WithTimeout client: one early request, then only keep-alives for more than two timeout periods: every one must be
+    acknowledged and Connect must still be serving. Go only; the only scenario that uses real time."""
+    b = cc.SB(sid, version=1)
+    b.connect_step["client_timeout_ms"] = 600
+    b.connect()
+    tag = rnd.randrange(1, 1 << 20) * 64
+    b.send(1, rnd.choice(REQ_TYPES), 5, tag + 1)
+    b.reply_to(1, 1023, 3, tag + 2)
+    b.wait(1)
+    for k in range(14):
+        b.op("sleep", ms=100)
+        b.keepalive(100 + k)
+        b.expect()
+    b.op("drain")
+    b.op("wait_connect")
+    sc = b.script()
+    sc["family"] = "timed"
+    return sc
+
+
 FAMILIES = ["outstanding", "burst", "negotiation", "mixed", "burst"]
 
 
@@ -132,9 +184,12 @@ def run(tier, seed, replay=None):
         return res.finish()
     thorough = tier == "thorough"
     rp_data = {}
+    scripts_pred = []
     if replay:
         rp_data = json.load(open(replay))
         scripts = [rp_data["script"]] if "script" in rp_data else []
+        if scripts and scripts[0].get("family") in ("splitcancel", "timed"):
+            scripts_pred, scripts = scripts, []
     else:
         scripts = gen_scripts(seed, 3000 if thorough else 500)
     def view_of(sc, g):
@@ -187,6 +242,50 @@ def run(tier, seed, replay=None):
                 reported.add("correspondence")
                 res.violation("correspondence:C07/script", "Go and the model disagree on script %s though C07 holds on Go's run: %s" % (
                     s["id"], "; ".join(d2[:4])), dict(kind="correspondence", correspondence="C07/acks", script=s, differences=d2[:10]), False)
+    # Go-only scenarios
+    pred_only = []
+    if replay and scripts_pred:
+        pred_only = scripts_pred
+    elif not replay:
+        rg = random.Random(seed + 13)
+        pred_only = ([splitcancel_script(rg, "c07-splitcancel-%d" % i) for i in range(150 if thorough else 30)]
+                     + [timed_script(rg, "c07-timed-%d" % i) for i in range(6 if thorough else 2)])
+    for s, g in cc.run_pred_only(exe, pred_only):
+        evals += 1
+        dist[s["family"]] = dist.get(s["family"], 0) + 1
+        if g is None or g.get("st") in ("watchdog", "skipped", "crash"):
+            if "crash" not in reported:
+                reported.add("crash")
+                cc.crash_violation(res, PID, s, g)
+            continue
+
+        def judge(g_):
+            v = view_of(s, g_)
+            wc = [o for st, o in zip(s["steps"], g_.get("obs") or []) if st["op"] == "wait_connect"]
+            v["serving"] = not wc or wc[-1].get("res") == "blocked"
+            out = list(cc.pred_c07(v))
+            if wc and wc[-1].get("res") != "blocked" and not out:
+                out.append(("connection-torn-down", "Connect returned (%s) although the peer only sent keep-alives and "
+                            "replies and every Write could complete" % wc[-1].get("res")))
+            return v, out
+        view, bad = judge(g)
+        if bad and s["family"] == "timed":       # real time: a stalled machine could make it fail; it must fail again
+            for _ in range(2):
+                g2, _ = cc.run_go(exe, [s], shards=1)
+                if not g2 or g2[0] is None:
+                    continue
+                v2, bad2 = judge(g2[0])
+                if not bad2:
+                    bad = []
+                    break
+        kas = [i for k, i in view["order"] if k == "ka"]
+        n_ka += len(kas)
+        nontriv.add((s["id"], len(kas)))
+        for sig, text in bad:
+            if sig not in reported:
+                reported.add(sig)
+                res.violation(sig, "%s [script %s]" % (text, s["id"]), dict(kind="script", script=s, theorem="C07_*"))
+
     stress = []
     if replay and "stress" in rp_data:
         stress = [rp_data["stress"]]
